@@ -329,6 +329,44 @@ def check_C14(ctx):
     engine_check(ctx, "C14", lambda r: r["sn"]["set"][4] == "Parallel" and len(r["calls"]) > 2, 14)
 
 
+# =================================================================================
+# C01 - ordinals
+# =================================================================================
+
+def replay_ord(prop, inv, rp, wd):
+    vlib.run_harness(["ordinals", "--case", json.dumps({"R": rp["r"], "Ann": rp["ann"]}), "--out", os.path.join(wd, "rec")])
+    sh = os.path.join(wd, "rec", "shard-00.ndjson")
+    c = Ctx.__new__(Ctx)
+    cfg = "INIT TInit\nNEXT TNext\nCHECK_DEADLOCK FALSE\nINVARIANT %s\n" % inv
+    # replay re-parses the annotation itself, so 'want' is recomputed by the harness
+    r = Ctx._tlc_with_cfg(c, "TraceOrdinals", "replay.cfg", cfg, os.path.join(wd, "tlc"), 1, 600, "2g", True, env={"VERIF_TRACE": sh})
+    if r.errors:
+        return False, "replay could not be evaluated: " + r.errors[0][:300]
+    return any(v[0] == inv for v in r.violations), "invariant holds on replay"
+
+
+REPLAYERS["ord"] = replay_ord
+
+
+def check_C01(ctx):
+    q = ctx.quick
+    maxr, lo, hi = (4, -2, 6) if q else (6, -3, 9)
+    ctx.design("MCOrdinals", "CONSTANTS MaxR = %d\n NegLo = %d\n Hi = %d\nINIT Init\nNEXT Next\nCHECK_DEADLOCK FALSE\nINVARIANT Inv\n" % (maxr, -lo, hi if q else 7),
+               "ordinals")
+    args = ["ordinals", "--maxr", str(maxr), "--lo", str(lo), "--hi", str(hi), "--nrand", "40" if q else "2000",
+            "--ctl-every", "3" if q else "2", "--seed", str(vlib.seed()), "--workers", str(vlib.NCPU)]
+    d, shards, meta = ctx.harness(args, "helpers+controller")
+    cfg = "INIT TInit\nNEXT TNext\nCHECK_DEADLOCK FALSE\nINVARIANT Conf\nINVARIANT P_C01\n"
+    ctx.trace("TraceOrdinals", cfg, shards, "ordinals", {"P_C01"},
+              replay=lambda rec: {"kind": "ord", "r": rec["r"], "ann": rec["ann"]})
+    ctx.exhaustive = True
+    ctx.extra["domains"] = [meta]
+    ctx.add_samples(shards, 2, lambda r: r["ctl"] and len(r["want"]) > 1 and r["r"] > 1)
+    ctx.add_samples(shards, 1, lambda r: r["cls"] == "malformed")
+    ctx.assumptions.append("int32 extremes and arbitrary int32 slot sets are sampled (seeded), small ranges are enumerated completely")
+
+
 CHECKS = {
+    "C01": check_C01,
     "C03": check_C03, "C04": check_C04, "C05": check_C05, "C07": check_C07, "C12": check_C12, "C14": check_C14,
 }
